@@ -53,7 +53,8 @@ def _get_features_info(features: list[Feature]) -> dict[str, Any]:
             feature_type = "XOR"
         elif feature.is_or_group():
             feature_type = "OR"
-        elif feature.is_cardinality_group():
+        elif feature.is_cardinality_group() or feature.is_mutex_group():
+            # Glencoe has no mutex type: a mutex group is the cardinality group [0..1]
             feature_type = "GENOR"
 
         features_info[feature.name] = {
@@ -64,7 +65,8 @@ def _get_features_info(features: list[Feature]) -> dict[str, Any]:
         }
 
         if feature_type == "GENOR":
-            relation = next(r for r in feature.get_relations() if r.is_cardinal())
+            relation = next(r for r in feature.get_relations()
+                            if r.is_cardinal() or r.is_mutex())
             features_info[feature.name]["min"] = relation.card_min
             features_info[feature.name]["max"] = relation.card_max
     return features_info
@@ -72,7 +74,7 @@ def _get_features_info(features: list[Feature]) -> dict[str, Any]:
 
 def _get_tree_info(feature: Feature) -> dict[str, Any]:
     feature_info: dict[str, Any] = {}
-    feature_info["id"] = safename(feature.name)
+    feature_info["id"] = feature.name  # the key of the feature in the 'features' table
     children = [
         _get_tree_info(child)
         for child in sorted(feature.get_children(), key=lambda f: f.name)
@@ -93,7 +95,7 @@ def _get_ctc_info(ast_node: Node) -> dict[str, Any]:
     ctc_info: dict[str, Any] = {}
     if ast_node.is_term():
         ctc_info["type"] = "FeatureTerm"
-        ctc_info["operands"] = [safename(str(ast_node.data))]
+        ctc_info["operands"] = [str(ast_node.data)]
     else:
         ctc_info["type"] = GlencoeWriter.CTC_TYPES[ast_node.data]
         operands = []
